@@ -28,7 +28,9 @@ RULE = (
     "opposite face, or as a side edge. The written file is read by the independent parser; ground truth is geometric "
     "(positions of the two end points, the curve in the user's sense). Non-trivial: a direction-dependent edge (spline, "
     "polyLine, angle, curve) or an edge on a closing position (3-0, 7-4) is present and written; distinct = distinct "
-    "generated case."
+    "generated case. Small-model cell: the same models multiplied by 1e-2 ... 1e-4. Projection cell: 2-6 "
+    "project_side / project_edge calls in drawn order on one or two plain operations, expected labels per edge from the "
+    "call list alone; non-trivial: >= 2 calls and >= 1 projected edge."
 )
 ASSUMPTIONS = [
     "Face.point_array after the manipulations is trusted for the corner order (face re-indexing is C10's subject); "
@@ -40,8 +42,12 @@ ASSUMPTIONS = [
     "written coordinates carry 8 decimals: positions are compared with 1e-7 absolute + 1e-9 relative to the radius",
     "blocks with a zero-length edge cannot be graded by the library (count chop on zero length raises), so for them "
     "the edges section is taken from Mesh.assemble() (vertex_list/edge_list descriptions) inside a scaffold file",
-    "when two operations give different curves for one geometric edge the statement does not say which wins: the "
-    "entry must equal one of them (labelled conflict)",
+    "when two operations give different curves (or different projection labels) for one geometric edge the statement "
+    "does not say which wins: the entry must equal one of them (labelled conflict)",
+    "small models: every vertex distance stays >= 1.2e-5 (100 x the library's merge tolerance 1e-7); arc kinds are left "
+    "out there because the library's absolute collinearity tolerance drops small arcs (known finding C08-N2)",
+    "projection sequences: labels(edge) = surfaces of all sides projected with edges=True that contain the edge + "
+    "surfaces given to project_edge for that edge; the four edges of a side come from the blockMesh sketch (R-HEX)",
 ]
 
 POS_CORNERS = [(0, 1), (1, 2), (2, 3), (3, 0), (4, 5), (5, 6), (6, 7), (7, 4), (0, 4), (1, 5), (2, 6), (3, 7)]
@@ -58,6 +64,7 @@ def positions(case) -> np.ndarray:
     rot = case.get("rot")
     if rot:
         pos = pos @ rodrigues(rot[:3], rot[3]).T
+    pos = pos * case.get("scale", 1.0)
     col = case.get("collapse")
     if col:
         pos = pos.copy()
@@ -259,7 +266,7 @@ def check_model(case, ctx: Ctx) -> None:
     def node_of(p) -> int:
         d = [float(np.linalg.norm(np.asarray(p) - pos[n])) for n in used]
         k = int(np.argmin(d))
-        if d[k] > 1e-6:
+        if d[k] > 1e-6:  # nodes are >= 1e-5 apart at every model scale; the file carries 8 decimals
             raise Violation("vertex-off-lattice", "a vertex is not at a corner of any operation", **facts)
         return rep[used[k]]
 
@@ -380,6 +387,11 @@ def check_model(case, ctx: Ctx) -> None:
         ctx.label("hist:" + ("+".join(s[0] for s in o["history"]) or "given"))
     for r in b.face_role:
         ctx.label("face-as-" + r)
+    if "scale" in case:
+        ctx.label("scale=%g" % case["scale"])
+        lens = [d.truth.chord for d in matched.values()]
+        if lens and min(lens) < 3e-4:
+            ctx.label("written-edge-shorter-than-3e-4")
     ctx.nt(nt)
 
 
@@ -554,36 +566,206 @@ def grid(kinds, inverts: str, slots) -> List[dict]:
 
 ALL_SLOTS = [("pre", m) for m in range(4)] + [("opp", i) for i in range(4)] + [("side", i) for i in range(4)]
 PRE_SLOTS = [("pre", m) for m in range(4)]
-INDEPENDENT = ("arc", "origin", "project") + xe.CURVE_KINDS
+# kinds that survive in a small model: the library's absolute collinearity tolerance drops small arcs (known finding
+# C08-N2), which is not this property's subject
+SMALL_KINDS = ("spline", "polyLine", "project", "curve-linear", "curve-line")
+SCALES = [1e-2, 1e-3, 3e-4, 1e-4]
+
+
+@st.composite
+def small_case(draw):
+    """whole model given in small units: vertex distances down to 1.2e-5 (>= 100 x TOL)"""
+    if draw(st.booleans()):
+        case = draw(single_case(SMALL_KINDS))
+    else:
+        case = draw(shared_case(draw(st.sampled_from(["nothing", "same"])), kinds=SMALL_KINDS))
+    case["scale"] = draw(st.sampled_from(SCALES))
+    return case
+
+
+def small_grid() -> List[dict]:
+    out = []
+    for k, case in enumerate(grid(("spline", "polyLine", "project"), "even", ALL_SLOTS)):
+        if k % 6 == 0:  # one history per (kind, slot)
+            out.append(dict(case, scale=SCALES[(k // 6) % len(SCALES)]))
+    return out
+
+
+# --------------------------------------------------------------------------------------------------
+# sequences of projection calls: the labels of each of the 12 edges follow from the call list alone
+
+LABELS = ["geo", "geo2", "wall", "roof"]
+PROJ_GEOMETRY = {name: ["type sphere", "origin (0 0 0)", f"radius {i + 1}"] for i, name in enumerate(LABELS)}
+
+
+def side_positions(side: str) -> List[int]:
+    """positions (0..11) of the four edges of a side, from the blockMesh sketch (R-HEX), not from the library"""
+    corners = set(HEX_SIDES[side])
+    return [p for p, (c1, c2) in enumerate(POS_CORNERS) if c1 in corners and c2 in corners]
+
+
+def expected_projection(calls, n_ops: int) -> List[Dict[int, set]]:
+    exp: List[Dict[int, set]] = [{p: set() for p in range(12)} for _ in range(n_ops)]
+    for c in calls:
+        if c[0] == "side":
+            if c[4]:
+                for p in side_positions(c[2]):
+                    exp[c[1]][p].add(c[3])
+        else:
+            p, _ = _position_of(list(range(8)), c[2], c[3])
+            exp[c[1]][p].add(c[4])
+    return exp
+
+
+@st.composite
+def projection_case(draw):
+    two = draw(st.booleans())
+    if two:
+        case = draw(shared_case("nothing"))
+        for o in case["ops"]:
+            o["post"] = []
+        case.pop("share")
+    else:
+        case = draw(_lattice((1, 1, 1)))
+        case["ops"] = [draw(_op(0, "even"))]
+        case["order"] = [0]
+    n_ops = len(case["ops"])
+    calls: List[list] = []
+    labels = [{p: set() for p in range(12)} for _ in range(n_ops)]
+    for _ in range(draw(st.integers(2, 6))):
+        oi = draw(st.integers(0, n_ops - 1))
+        lab = draw(st.sampled_from(LABELS))
+        if draw(st.integers(0, 2)) == 0:
+            p = draw(st.integers(0, 11))
+            c1, c2 = POS_CORNERS[p]
+            if draw(st.booleans()):
+                c1, c2 = c2, c1
+            touched, call = [p], ["edge", oi, c1, c2, lab]
+        else:
+            # bottom / top twice as likely: Face.project and the side faces take different paths in the library
+            side = draw(st.sampled_from(["bottom", "top", "bottom", "top", "front", "right", "back", "left"]))
+            with_edges = draw(st.sampled_from([True, True, True, False]))
+            touched, call = (side_positions(side) if with_edges else []), ["side", oi, side, lab, with_edges]
+        if any(len(labels[oi][p] | {lab}) > 2 for p in touched):
+            continue  # an edge is the intersection of at most two surfaces
+        for p in touched:
+            labels[oi][p].add(lab)
+        calls.append(call)
+    case["calls"] = calls
+    return case
+
+
+def check_projection(case, ctx: Ctx) -> None:
+    b = build(case)
+    facts: Dict[str, Any] = {"ops": len(case["ops"]), "calls": case["calls"], "order": case["order"]}
+    for c in case["calls"]:
+        op = b.ops[c[1]]
+        try:
+            if c[0] == "side":
+                op.project_side(c[2], c[3], edges=c[4])
+            else:
+                op.project_edge(c[2], c[3], c[4])
+        except Exception as ex:
+            raise Violation("projection-rejected", f"valid call {c} raised {type(ex).__name__}: {ex}", **facts) from None
+    for name in LABELS[2:]:
+        b.mesh.add_geometry({name: PROJ_GEOMETRY[name]})
+    text = written_text(case, b, facts)
+    try:
+        bmd = lt.parse(text)
+    except FoamParseError as ex:
+        raise Violation("unparsable", f"written file does not parse: {ex}", **facts) from None
+    exp = expected_projection(case["calls"], len(case["ops"]))
+    used = sorted({n for nodes in b.nodes for n in nodes})
+
+    def node_of(p) -> int:
+        d = [float(np.linalg.norm(np.asarray(p) - b.pos[n])) for n in used]
+        k = int(np.argmin(d))
+        if d[k] > 1e-6:
+            raise Violation("vertex-off-lattice", "a vertex is not at a corner of any operation", **facts)
+        return used[k]
+
+    vnode = [node_of(v.pos) for v in bmd.vertices]
+    # per geometric edge: the label sets the operations give it (in insertion order, empty ones dropped)
+    want: Dict[frozenset, List[List[str]]] = {}
+    for oi in case["order"]:
+        for p, (c1, c2) in enumerate(POS_CORNERS):
+            if exp[oi][p]:
+                want.setdefault(frozenset((b.nodes[oi][c1], b.nodes[oi][c2])), []).append(sorted(exp[oi][p]))
+    got: Dict[frozenset, List[Any]] = {}
+    for e in bmd.edges:
+        got.setdefault(frozenset((vnode[e.a], vnode[e.b])), []).append(e)
+    for key in sorted(set(want) | set(got), key=sorted):
+        es = got.get(key, [])
+        ws = want.get(key, [])
+        f2 = dict(facts, edge_nodes=sorted(key), expected=ws, written=[[e.kind, e.payload] for e in es])
+        if not ws:
+            raise Violation("phantom-entry", f"entry {es[0].kind} {es[0].a} {es[0].b} ({es[0].payload}) on an edge no call projected", **f2)
+        if len(es) != 1:
+            raise Violation("entry-missing" if not es else "entry-duplicated",
+                            f"{len(es)} entries for an edge projected to {ws}", **f2)
+        e = es[0]
+        if e.kind != "project":
+            raise Violation("entry-kind", f"entry kind {e.kind!r}, expected 'project'", **f2)
+        if sorted(e.payload) not in ws:
+            raise Violation("labels-differ", f"edge written as project ({' '.join(e.payload)}), the calls give {ws}", **f2)
+    n_two = sum(1 for ws in want.values() for w in ws if len(w) == 2)
+    # the order class in which aliasing between the four edges of a face would show: a face projected with its edges,
+    # later one of those edges gets a second surface
+    seen: List[Dict[int, set]] = [{p: set() for p in range(12)} for _ in case["ops"]]
+    face_then_more = False
+    for c in case["calls"]:
+        ps = (side_positions(c[2]) if c[4] else []) if c[0] == "side" else [_position_of(list(range(8)), c[2], c[3])[0]]
+        lab = c[3] if c[0] == "side" else c[4]
+        for p in ps:
+            for prev_side in ("bottom", "top"):
+                if p in side_positions(prev_side) and ("F" + prev_side) in seen[c[1]][p] and lab not in seen[c[1]][p] \
+                        and not (c[0] == "side" and c[2] == prev_side):
+                    face_then_more = True
+        for p in ps:
+            seen[c[1]][p].add(lab)
+            if c[0] == "side" and c[2] in ("bottom", "top"):
+                seen[c[1]][p].add("F" + c[2])
+    ctx.nt(len(want) >= 1 and len(case["calls"]) >= 2)
+    ctx.label("calls=%d" % len(case["calls"]), "ops=%d" % len(case["ops"]))
+    ctx.label("two-label-edges" if n_two else "single-label-only")
+    if face_then_more:
+        ctx.label("face-with-edges-then-second-surface")
+    for c in case["calls"]:
+        ctx.label("call:" + (c[0] + ":" + (c[2] if c[2] in ("bottom", "top") else "lateral") if c[0] == "side" else "edge"))
+    if any(len(ws) > 1 for ws in want.values()):
+        ctx.label("edge-projected-by-both-operations")
+
 
 CELLS = [
-    Cell("C07/single/as-drawn", single_case(xe.ALL_VALID), check_model, 400, 12000,
+    Cell("C07/single/as-drawn", single_case(xe.ALL_VALID), check_model, 350, 12000,
          "one operation, 1-3 user edges of any kind on face (before shift/reorient/double-invert), opposite face, "
          "sides; grid kind x slot x history enumerated first",
          fixed_cases=grid(xe.ALL_VALID, "even", ALL_SLOTS)),
-    Cell("C07/single/inverted-face/direction-free", single_case(INDEPENDENT, inverts="odd"), check_model, 200, 6000,
-         "as above with an odd number of Face.invert() in the history; kinds whose data do not depend on the sense",
-         fixed_cases=grid(INDEPENDENT, "odd", PRE_SLOTS)),
-    Cell("C07/witness/inverted-face/directional", single_case(xe.DIRECTIONAL, inverts="odd", pre_only=True), check_model,
-         120, 3000, "spline / polyLine / angle edges on a face that is then inverted (ledger F7)",
-         fixed_cases=grid(xe.DIRECTIONAL, "odd", PRE_SLOTS)),
-    Cell("C07/shared/definer-first", shared_case("nothing", order=[0, 1]), check_model, 250, 8000,
-         "two operations share the edge (face or edge-only contact, any relative numbering); the first inserted "
-         "declares it, the second declares nothing"),
-    Cell("C07/witness/shared/definer-later", shared_case("nothing", order=[1, 0],
-                                                       kinds=[k for k in xe.ALL_VALID if k not in ("project", "curve-linear")]),
-         check_model, 120, 3000, "the operation that declares nothing is inserted first (ledger F8)"),
-    Cell("C07/shared/declared-twice", shared_case("same"), check_model, 250, 8000,
+    Cell("C07/single/inverted-face", single_case(xe.ALL_VALID, inverts="odd"), check_model, 300, 9000,
+         "as above with an odd number of Face.invert() in the history (every kind: spline/polyLine points and the angle's "
+         "sense have to follow the inversion)",
+         fixed_cases=grid(xe.ALL_VALID, "odd", PRE_SLOTS)),
+    Cell("C07/shared/declared-once", shared_case("nothing"), check_model, 300, 10000,
+         "two operations share the edge (face or edge-only contact, any relative numbering); one declares it, the other "
+         "declares nothing; both insertion orders"),
+    Cell("C07/shared/declared-twice", shared_case("same"), check_model, 200, 8000,
          "both operations declare the same curve, each in its own sense; both insertion orders"),
     Cell("C07/shared/conflicting", shared_case("different", kinds=("arc", "origin", "angle", "spline", "polyLine", "project")),
-         check_model, 150, 5000, "the operations declare different kinds for one edge: one entry, equal to one of them"),
-    Cell("C07/degenerate/omitted", single_case(xe.DEGENERATE, degenerate=xe.ALL_VALID), check_model, 200, 6000,
+         check_model, 120, 5000, "the operations declare different kinds for one edge: one entry, equal to one of them"),
+    Cell("C07/degenerate/omitted", single_case(xe.DEGENERATE, degenerate=xe.ALL_VALID), check_model, 150, 6000,
          "explicit lines and collinear arc points (first edge) next to valid edges: absent from the file, wire "
          "length = straight distance"),
-    Cell("C07/degenerate/zero-length", zero_length_case(), check_model, 150, 4000,
+    Cell("C07/degenerate/zero-length", zero_length_case(), check_model, 120, 4000,
          "an edge of any kind declared between two coincident corners (wedge): absent"),
-    Cell("C07/degenerate/shared", shared_case("different", first_kinds=xe.DEGENERATE, order=[1, 0],
+    Cell("C07/degenerate/shared", shared_case("different", first_kinds=xe.DEGENERATE,
                                               kinds=("arc", "spline", "polyLine", "angle", "origin")),
-         check_model, 100, 3000, "a degenerate declaration and a valid one on the same geometric edge (valid one inserted "
-         "first): the valid one is written once"),
+         check_model, 100, 3000, "a degenerate declaration and a valid one on the same geometric edge, both insertion "
+         "orders: the valid one is written once and every wire has its length"),
+    Cell("C07/small-model", small_case(), check_model, 250, 8000,
+         "the same models given in small units (scale 1e-2 ... 1e-4, vertex distances down to 1.2e-5): spline, polyLine, "
+         "project and curve edges still appear exactly once", fixed_cases=small_grid()),
+    Cell("C07/projection/sequences", projection_case(), check_projection, 400, 12000,
+         "2-6 project_side(.., edges=True/False) / project_edge calls in drawn order on one or two operations; the label "
+         "set of each of the 12 edges follows from the call list (at most two per edge by construction); valid "
+         "sequences must not raise"),
 ]
